@@ -228,6 +228,22 @@ def accepted(run, exe, U):
         out[ev["eco"]] = [t for t, ok in zip(ev["texts"], ev["ok"]) if ok]
     return out
 
+def stratified(members, n, rnd):
+    """seeded sample that covers as many distinct *shapes* as possible: members are grouped by their
+    shape signature (digit runs -> 9, letter runs -> a) and picked round-robin over the groups"""
+    groups = {}
+    for m in members:
+        sig = re.sub(r"[A-Za-z]+", "a", re.sub(r"\d+", "9", m))
+        groups.setdefault(sig, []).append(m)
+    keys = sorted(groups); rnd.shuffle(keys)
+    for k in keys: rnd.shuffle(groups[k])
+    out = []; i = 0
+    while len(out) < n and any(groups[k] for k in keys):
+        k = keys[i % len(keys)]
+        if groups[k]: out.append(groups[k].pop())
+        i += 1
+    return out
+
 def pick(members, n, rnd):
     """Deterministic (seeded) sub-universe of at most n members."""
     if len(members) <= n:
